@@ -677,6 +677,7 @@ def run(ctx):
     for rk in ("I", "C"):
         ctx.run_shards(long_shard, [rk])
         ctx.run_shards(raw_shard, [rk])
+    _pairhist.run(ctx, __name__)
     merge_runner_sigs(ctx.part)
     ctx.coverage_extra["cases"] = total
     ctx.coverage_extra["pinned_scenarios_validated"] = pinned
@@ -703,8 +704,20 @@ def run(ctx):
     ]
 
 
+# ---- pair histories (mc/pairhist.py): a literal alone and after every other literal in the same process ---------
+PH_TEXTS = ['"a  b"', '"a b"', "'a  b'", '"a\\tb"', '"a\tb"', '"\\\\x41"', '"\\x41"', '"A"', "'A'", '"\\101"', '"\\\\101"', 'r"\\x41"', 'R"\\x41"', 'b"\\x41"', 'b"A"', 'b"\\101"', '"""a\nb"""', '"""a\n\nb"""',
+            '"\\u00e9"', '"é"', 'b"é"', 'b"\\xc3\\xa9"', 'b"\\xe9"', '"\\U0001F600"', '"😀"', "007", "7", "0x7", "-7", "- 7", "7u", "7U", "0x7u", "7.0", "07.0", "7e0", "70e-1", "1e1", "10.0", ".5", "0.5", "-0.0", "0.0",
+            '""', "''", 'b""', 'r""', "true", "false", "null"]
+from .. import pairhist as _pairhist  # noqa: E402
+
+_pairhist.install(globals(), PH_TEXTS)
+
+
 def replay(w):
     wit = w["witness"]
+    if wit.get("space") == "pairhist":
+        from .. import pairhist
+        return pairhist.replay(w)
     rk, text = wit["runner"], wit["text"]
     print("replaying", wit)
     o = celrun.evaluate(rk, text)
